@@ -21,7 +21,7 @@ def declared_names(*elements):
             if not props or isinstance(props, NotPassed):
                 continue
             for name, prop in props.items():
-                by_source.setdefault(prop.source or name, set()).add(name)
+                by_source.setdefault(prop.source if prop.source is not None else name, set()).add(name)
                 pynames.add(name)
     return by_source, pynames
 
@@ -59,7 +59,7 @@ def readback(value, result, by_source, pynames, path="$", out=None, depth=0):
     if isinstance(value, dict):
         if isinstance(type(result), ObjectMeta):
             cls = type(result)
-            decl = {(prop.source or name): name for name, prop in cls.properties.items()}
+            decl = {(prop.source if prop.source is not None else name): name for name, prop in cls.properties.items()}
             for k, v in value.items():
                 if k in decl:
                     try:
